@@ -116,8 +116,15 @@ func lookupModel(fn *ssa.Function) modelFn {
 		return mark(modelBytesEqual)
 	case name == "time.Now":
 		return mark(func(e *Engine, st *State, fr *Frame, fn *ssa.Function, args []Val, in ssa.Instruction) (Val, bool) {
+			// inside contract expressions "now" is the instant the code last observed
+			if st.isPure {
+				if v, ok := st.ghost["$now"]; ok {
+					return v, true
+				}
+			}
 			v := freshVal(fn.Signature.Results().At(0).Type(), "now")
 			st.assumeRefsOld(v)
+			st.ghost["$now"] = v
 			return v, true
 		})
 	case name == "math.Min" || name == "math.Max":
